@@ -93,6 +93,12 @@ prop('C18', 'model_checking', 'exhaustive enumeration of all source trees of a s
      'targets, link groups and counts, 12 mode bits, owners, mtime seconds and user xattrs; e2fsck -fn = 0, independent checker clean, rebuild byte-identical; debugfs rdump / dump -p output compared with the source.',
      'source trees live on the scratch tmpfs, built as root. Known finding: sparse files on inline_data filesystems. Two defects were repaired (inline-data reads returned the inline area size; rdump did not restore symlink owners).', '4/C18')
 
+prop('C09', 'model_checking', 'explicit-state BFS over histories of file operations on the real libext2fs (in-process harness, states de-duplicated on the image hash), byte-array reference model checked after every operation, independent checker on distinct states',
+     'Breadth-first search to depth 2-3 over ~330 operations on two files (pwrite at offsets around block, indirect-level and cluster boundaries x 5 lengths, two writes and a read through one handle, set_size, punch over block ranges, fallocate with each flag combination, filesystem close+reopen) on block-mapped, extent, '
+     'extent+metadata_csum, bigalloc, inline_data and 4k-block filesystems, empty and nearly full: after every operation both files are read back completely through fresh handles (two chunk sizes) and must equal the byte-array model (last write wins, holes/punched/preallocated ranges read zero, exact size); '
+     'every distinct final image must pass e2fsck -fn and the independent checker (i_blocks, bitmaps).',
+     'depth-bounded (quick: depth 2, depth 3 from states that end in a shrinking operation; thorough: depth 3); after an operation that fails with an error other than no-space the affected file is no longer compared. Known findings: three defects of the inline-data paths. Two defects (fallocate gap filling, indirect punch) were repaired.', '4/C09')
+
 def main():
     props = [json.loads(l) for l in open(os.path.join(V, 'properties.jsonl'))]
     checks, na = [], []
